@@ -4,6 +4,12 @@ EXTENDS PyFlow, Json
 CONSTANTS ExportMin      \* bodies shorter than this are not exported
 
 MCKindsAll  == {"asg", "aug", "prt", "ret", "rtn", "if", "else", "for", "whl", "brk", "cnt"}
+MCKindsInline == MCKindsAll \cup {"ifa", "wha"}
+MCKindsLoop == {"for", "whl", "else", "brk", "cnt", "prt"}
+MCReadsAll == SUBSET Vars
+MCReadsNone == {{}}
+MCForAll == Vars \cup {""}
+MCForPlain == {""}
 MCKindsCore == {"asg", "aug", "prt", "if", "else", "for"}
 MCInitAll   == {{}, {"a"}, {"a", "b"}}
 MCInitOne   == {{"a"}}
